@@ -3,6 +3,7 @@ import Lemmas.GeomPoly
 import Lemmas.GeomExt
 import Lemmas.GeomInt64
 import Lemmas.GeomInt64Laws
+import Lemmas.GeomInt64Arith
 /-! # C18 — rectangle predicates and affine matrices obey their set and composition laws
 
 Property theorems only.  The functions named here (`Rect.contains`, `Point.inRect`, `Matrix.multiply`,
@@ -675,6 +676,97 @@ theorem int64_wrap_contrast :
   · decide
   · decide
   · decide
+
+/-! ### Expand, Inset and the Point / Size arithmetic on machine integers (streams `rw`, `aw`) -/
+
+/-- `Rect.Expand` and `Rect.Inset` at `Int64` agree with the functions at `Int` under explicit no-overflow conditions:
+    Expand when all edges and the point lie in `[-2^62, 2^62)`, Inset when the six sums / differences it forms fit -/
+theorem int64_expand_inset_agree (r : Rect Int64) (p : Point Int64) (i : Insets Int64) :
+    (r.Half → FitsHalf p.x.toInt → FitsHalf p.y.toInt → (r.expand p).toInt = r.toInt.expand p.toInt) ∧
+    (Fits (r.x.toInt + i.left.toInt) → Fits (r.y.toInt + i.top.toInt) → Fits (i.left.toInt + i.right.toInt) →
+      Fits (i.top.toInt + i.bottom.toInt) → Fits (r.w.toInt - (i.left.toInt + i.right.toInt)) →
+      Fits (r.h.toInt - (i.top.toInt + i.bottom.toInt)) → (r.inset i).toInt = r.toInt.inset i.toInt) :=
+  ⟨expand_toInt r p, inset_toInt r i⟩
+
+/-- `expand_spec` for Go `int`: the expanded rectangle starts at the minimum, ends at the maximum and has non-negative
+    sizes — as integers, i.e. without wrap — whenever all edges and the point lie in `[-2^62, 2^62)` -/
+theorem expand_spec_int64 (r : Rect Int64) (p : Point Int64) (hr : r.Half) (hx : FitsHalf p.x.toInt)
+    (hy : FitsHalf p.y.toInt) (hw : 0 ≤ r.w.toInt) (hh : 0 ≤ r.h.toInt) :
+    (r.expand p).x.toInt = min r.x.toInt p.x.toInt ∧ (r.expand p).y.toInt = min r.y.toInt p.y.toInt ∧
+    (r.expand p).x.toInt + (r.expand p).w.toInt = max (r.x.toInt + r.w.toInt) p.x.toInt ∧
+    (r.expand p).y.toInt + (r.expand p).h.toInt = max (r.y.toInt + r.h.toInt) p.y.toInt ∧
+    0 ≤ (r.expand p).w.toInt ∧ 0 ≤ (r.expand p).h.toInt := by
+  have e := expand_toInt r p hr hx hy
+  obtain ⟨s1, s2, s3, s4, s5, s6⟩ := (expand_spec r.toInt p.toInt).2 hw hh
+  rw [← e] at s1 s2 s3 s4 s5 s6
+  exact ⟨s1, s2, s3, s4, s5, s6⟩
+
+/-- the `Point` / `Size` arithmetic at `Int64` agrees with the arithmetic at `Int` under the no-overflow conditions of
+    exactly the operations each method performs; `Size.Min` / `Max` / `ConstrainForHint` only compare and agree always -/
+theorem int64_point_size_agree (p q : Point Int64) (s t : Size Int64) (v : Int64) :
+    (Fits (p.x.toInt + q.x.toInt) → Fits (p.y.toInt + q.y.toInt) → (p.add q).toInt = p.toInt.add q.toInt) ∧
+    (Fits (p.x.toInt - q.x.toInt) → Fits (p.y.toInt - q.y.toInt) → (p.sub q).toInt = p.toInt.sub q.toInt) ∧
+    (Fits (-p.x.toInt) → Fits (-p.y.toInt) → p.neg.toInt = p.toInt.neg) ∧
+    (Fits (p.x.toInt * v.toInt) → Fits (p.y.toInt * v.toInt) → (p.mul v).toInt = p.toInt.mul v.toInt) ∧
+    (Fits (p.x.toInt * q.x.toInt) → Fits (p.y.toInt * q.y.toInt) → Fits (p.x.toInt * q.x.toInt + p.y.toInt * q.y.toInt) →
+      (p.dot q).toInt = p.toInt.dot q.toInt) ∧
+    (Fits (p.x.toInt * q.y.toInt) → Fits (p.y.toInt * q.x.toInt) → Fits (p.x.toInt * q.y.toInt - p.y.toInt * q.x.toInt) →
+      (p.cross q).toInt = p.toInt.cross q.toInt) ∧
+    (Fits (p.x.toInt - q.x.toInt) ∧ Fits (-(p.x.toInt - q.x.toInt)) → Fits (p.y.toInt - q.y.toInt) ∧ Fits (-(p.y.toInt - q.y.toInt)) →
+      p.equalWithin q v = p.toInt.equalWithin q.toInt v.toInt) ∧
+    ((s.min t).toInt = s.toInt.min t.toInt ∧ (s.max t).toInt = s.toInt.max t.toInt ∧
+      (s.constrainForHint t).toInt = s.toInt.constrainForHint t.toInt) :=
+  ⟨point_add_toInt p q, point_sub_toInt p q, point_neg_toInt p, point_mul_toInt p v, point_dot_toInt p q,
+   point_cross_toInt p q, equalWithin_toInt p q v, size_order_toInt s t⟩
+
+/-- CONTRAST: beyond those conditions the machine functions leave the integer ones — `Expand` of a rectangle with
+    non-negative sizes (no `X+Width` overflow) by a point three quarters of the range away has a NEGATIVE width (so it is
+    Empty and does not hold the point); the negation of the most negative point is itself; a point `2^63` away is
+    "equal within 0"; and adding 1 to the largest coordinate gives the smallest -/
+theorem int64_arith_wrap_contrast :
+    (∃ (r : Rect Int64) (p : Point Int64), r.NoWrap ∧ 0 ≤ r.w.toInt ∧ 0 ≤ r.h.toInt ∧ (r.expand p).w.toInt < 0 ∧
+      p.inRect (r.expand p) = false) ∧
+    (∃ p : Point Int64, p.neg.x = p.x ∧ p.x.toInt < 0) ∧
+    (∃ p q : Point Int64, p.equalWithin q 0 = true ∧ p.toInt.equalWithin q.toInt 0 = false) ∧
+    (∃ p q : Point Int64, 0 < p.x.toInt ∧ 0 < q.x.toInt ∧ (p.add q).x.toInt < 0) := by
+  refine ⟨⟨⟨-9223372036854775808, 0, 5, 1⟩, ⟨4611686018427387904, 0⟩, ?_, by decide, by decide, by decide, by decide⟩,
+    ⟨⟨-9223372036854775808, 0⟩, by decide, by decide⟩,
+    ⟨⟨-9223372036854775808, 0⟩, ⟨0, 0⟩, by decide, by decide⟩,
+    ⟨⟨9223372036854775807, 0⟩, ⟨1, 0⟩, by decide, by decide, by decide⟩⟩
+  unfold Rect.NoWrap; decide
+
+section Rotation
+variable {α : Type} [CommRing α]
+
+/-- `m.Rotate` IS `m.Multiply(rotation(s, c))`, all six entries, for every matrix `m` — the translation column
+    included — and every pair `(s, c)` -/
+theorem rotate_eq_multiply_rotation (m : Matrix α) (s c : α) : m.rotate s c = m.multiply (Matrix.newRotation s c) :=
+  (incremental_eq_multiply m s c).2.2
+
+/-- `Rotate` written as an in-place update of the receiver's copy, the translation column updated one entry after the
+    other: `TransY` sees the already rotated `TransX` -/
+def rotateSequential (m : Matrix α) (s c : α) : Matrix α :=
+  let tx := m.transX * c - s * m.transY
+  ⟨m.scaleX * c - s * m.skewY, m.skewX * c - s * m.scaleY, tx,
+   m.scaleX * s + m.skewY * c, m.skewX * s + m.scaleY * c, tx * s + m.transY * c⟩
+
+/-- the sequential form is right for a matrix without translation … -/
+theorem rotate_sequential_no_translation (m : Matrix α) (s c : α) (hx : m.transX = 0) (hy : m.transY = 0) :
+    rotateSequential m s c = m.rotate s c := by
+  simp only [rotateSequential, Matrix.rotate, hx, hy, Matrix.mk.injEq]
+  refine ⟨trivial, trivial, trivial, trivial, trivial, ?_⟩
+  ring
+
+end Rotation
+
+/-- … CONTRAST: and wrong as soon as the matrix carries one: a quarter turn `(s, c) = (1, 0)` of the translation by
+    `(1, 0)` must move the point `(0,0)` to `(0, 1)`; the sequential form sends it to `(0, 0)` -/
+theorem rotate_sequential_contrast :
+    ∃ (m : Matrix Rat) (s c : Rat) (p : Point Rat),
+      (rotateSequential m s c).transformPoint p ≠ (Matrix.newRotation s c).transformPoint (m.transformPoint p) ∧
+      (m.rotate s c).transformPoint p = (Matrix.newRotation s c).transformPoint (m.transformPoint p) := by
+  refine ⟨Matrix.newTranslation 1 0, 1, 0, ⟨0, 0⟩, ?_, (transform_rotate _ _ _ _).2⟩
+  norm_num [rotateSequential, Matrix.newTranslation, Matrix.newRotation, Matrix.transformPoint]
 
 /-- exactly the call of the model driver (`Driver/C18.lean`: limits ±`math.MaxFloat64`, the guarded branch of `extent`
     stubbed): on every polygon of finite float64 coordinates it computes the closed-form bounds, which enclose every
